@@ -120,6 +120,7 @@ class Probe:
         self.log = log
         self.accf = ACCS[acc][0]
         mk, self.is_factory = SEEDS[seedname]
+        self.factory_form = 'function'
         self.user_seed = mk()
         self.seed_backup = None if self.is_factory else copy.deepcopy(self.user_seed)
         self.termf = TERMS[term]
@@ -141,6 +142,16 @@ class Probe:
             self.keep.append(v)
             self.log.append(('F', 'seed', v))
             return v
+        # a factory is anything callable: a function, but also a functools.partial (a parametrised factory) or an object
+        # with __call__ - neither is a routine nor a class
+        if self.factory_form == 'partial':
+            import functools
+            return functools.partial(factory)
+        if self.factory_form == 'callable_object':
+            class _Factory:
+                def __call__(self_inner):
+                    return factory()
+            return _Factory()
         return factory
 
     def terminator(self):
@@ -209,7 +220,7 @@ class C09(Check):
                    'dist.update is compared through distogram.count / bounds / mean / bins against a reference fold with the same library']
     ANCHORS = ['rxsci/operators/scan.py', 'rxsci/operators/count.py', 'rxsci/data/to_list.py', 'rxsci/data/to_array.py', 'rxsci/math/dist/__init__.py']
     REQUIRED_TAGS = ['plain', 'mux', 'group', 'roll', 'roll_eq', 'split', 'time_split', 'generic', 'named', 'reduce', 'streaming', 'terminator',
-                     'factory', 'value-seed', 'mutable', 'empty-lifetime', 'scale', 'numpy-items'] + PRELUDE_TAGS + ['op=' + n[0] for n in NAMED]
+                     'factory', 'value-seed', 'mutable', 'empty-lifetime', 'scale', 'numpy-items', 'factory-that-is-not-a-function'] + PRELUDE_TAGS + ['op=' + n[0] for n in NAMED]
     REQUIRED_OBSERVED = ['accumulator_calls', 'terminator_calls', 'factory_calls', 'lifetimes_checked', 'identity_checks']
 
     def generate(self, rng, tier, shard, nshards):
@@ -244,7 +255,7 @@ class C09(Check):
             else:
                 acc, seedn, terms = COMBOS[(k // 3) % len(COMBOS)]
                 yield {'kind': 'generic', 'acc': acc, 'seed': seedn, 'term': terms[(k // 5) % len(terms)], 'reduce': (k // 2) % 2 == 0,
-                       'ctx': ctx, 'ctx_node': node, 'items': items}
+                       'ctx': ctx, 'ctx_node': node, 'items': items, 'factory_form': ['function', 'partial', 'callable_object'][(k // 7) % 3]}
 
     # ------------------------------------------------------------------
     def _lifetimes(self, log, out):
@@ -288,6 +299,9 @@ class C09(Check):
     def _run_generic(self, case, reduce, out):
         log = []
         probe = Probe(log, case['acc'], case['seed'], case['term'])
+        probe.factory_form = case.get('factory_form', 'function')
+        if probe.is_factory and probe.factory_form != 'function':
+            out.tags.append('factory-that-is-not-a-function')
         mk = lambda: rs.ops.scan(probe.accumulator, probe.seed_arg(), reduce=reduce, terminator=probe.terminator())   # noqa: E731
         if case['ctx'] == 'plain':
             for tag in ('H', 'T', 'R'):
